@@ -417,3 +417,241 @@ Proof.
 Qed.
 
 End Ext.
+
+(** * the highest acknowledged sequence alone: only clean requests notice *)
+
+Definition is_maxack (k : bytes) : bool := has_prefix (K_maxack ++ [slash]) k.
+
+(** the stores agree everywhere except under maxAckSeq/ *)
+Definition kv_eq_off (m m' : fmap bytes) : Prop :=
+  forall k, is_maxack k = false -> lookup k m = lookup k m'.
+
+Lemma kv_eq_off_set m m' k v : kv_eq_off m m' -> kv_eq_off (set k v m) (set k v m').
+Proof. intros E k' Hk. rewrite !lookup_set, (E k' Hk). reflexivity. Qed.
+
+Lemma kv_eq_off_remove m m' k : kv_eq_off m m' -> kv_eq_off (remove k m) (remove k m').
+Proof. intros E k' Hk. rewrite !lookup_remove, (E k' Hk). reflexivity. Qed.
+
+Lemma kv_eq_off_set_maxack m m' s d v v' :
+  kv_eq_off m m' -> kv_eq_off (set (maxack_key s d) v m) (set (maxack_key s d) v' m').
+Proof.
+  intros E k Hk. assert (k <> maxack_key s d) by (intros ->; discriminate Hk).
+  rewrite !lookup_set_neq by assumption. apply E. exact Hk.
+Qed.
+
+Lemma set_max_ack_off s d n m m' : kv_eq_off m m' -> kv_eq_off (set_max_ack s d n m) (set_max_ack s d n m').
+Proof. intros E. unfold set_max_ack. apply kv_eq_off_set_maxack. exact E. Qed.
+
+Section ExtOff.
+Variable A : Type.
+Variable H : bytes -> bytes.
+Variable has_route : bytes -> bool.
+Variable on_recv : A -> packet -> option (A * option bytes).
+Variable on_ack : A -> packet -> bytes -> option A.
+
+Notation chain := (chain A).
+Notation with_kv := (with_kv A).
+Notation c_kv := (c_kv A).
+Notation exec := (exec A H has_route on_recv on_ack).
+Notation step := (step A H has_route on_recv on_ack).
+Notation run := (run A H has_route on_recv on_ack).
+Notation run_log := (run_log A H has_route on_recv on_ack).
+
+Definition sim_off (c c' : chain) : Prop :=
+  exists kv', kv_eq_off (c_kv c) kv' /\ c' = with_kv c kv'.
+
+Definition orel_off (r r' : option (chain * list event)) : Prop :=
+  match r, r' with
+  | Some (c1, e1), Some (c2, e2) => e1 = e2 /\ sim_off c1 c2
+  | None, None => True
+  | _, _ => False
+  end.
+
+Definition no_clean_op (o : op A) : Prop :=
+  match o with OClean _ | ORecvClean _ _ _ => False | _ => True end.
+
+Lemma sim_off_with c1 m m' : kv_eq_off m m' -> sim_off (with_kv c1 m) (with_kv c1 m').
+Proof. intros X. exists m'. split; [exact X|]. destruct c1; reflexivity. Qed.
+
+Lemma sim_off_app c1 c2 a : sim_off c1 c2 -> sim_off (with_app A c1 a) (with_app A c2 a).
+Proof. intros [m [X ->]]. exists m. split; [destruct c1; exact X | destruct c1; reflexivity]. Qed.
+
+Lemma sim_off_fields c1 c2 : sim_off c1 c2 ->
+  c_name A c2 = c_name A c1 /\ c_app A c2 = c_app A c1 /\ c_clients A c2 = c_clients A c1 /\
+  c_rules A c2 = c_rules A c1 /\ c_now A c2 = c_now A c1.
+Proof. intros [m [_ ->]]. destruct c1; cbn. auto. Qed.
+
+Section OneOff.
+Variable c : chain.
+Variable kv' : fmap bytes.
+Hypothesis E : kv_eq_off (c_kv c) kv'.
+Notation c' := (with_kv c kv').
+Ltac prj := cbn [Keeper.c_name Keeper.c_kv Keeper.c_clients Keeper.c_rules Keeper.c_now Keeper.c_app Keeper.with_kv].
+
+Lemma next_send_off s d : next_send A c' s d = next_send A c s d.
+Proof. unfold next_send. prj. rewrite <- (E (next_send_key s d)) by reflexivity. reflexivity. Qed.
+Lemma clean_seq_off s d : clean_seq A c' s d = clean_seq A c s d.
+Proof. unfold clean_seq. prj. rewrite <- (E (clean_key s d)) by reflexivity. reflexivity. Qed.
+Lemma validate_packet_off p : validate_packet A c' p = validate_packet A c p.
+Proof. unfold validate_packet. rewrite clean_seq_off. prj. reflexivity. Qed.
+
+Lemma send_packet_off p : orel_off (send_packet A H c p) (send_packet A H c' p).
+Proof.
+  unfold send_packet. rewrite next_send_off. prj.
+  repeat match goal with |- context [if ?b then _ else _] => destruct b; [exact I|] end.
+  cbn [orel_off]. split; [reflexivity|]. rewrite ?with_kv_with. apply sim_off_with.
+  apply kv_eq_off_set. apply kv_eq_off_set. exact E.
+Qed.
+
+Definition rrel_off (r r' : rres A) : Prop :=
+  match r, r' with
+  | RErr _, RErr _ => True
+  | RUnauth _ c1 e1, RUnauth _ c2 e2 | ROk _ c1 e1, ROk _ c2 e2 => e1 = e2 /\ sim_off c1 c2
+  | _, _ => False
+  end.
+
+Lemma recv_packet_off p pf h : rrel_off (recv_packet A H c p pf h) (recv_packet A H c' p pf h).
+Proof.
+  unfold recv_packet. rewrite validate_packet_off. prj.
+  unfold has at 1 3. rewrite <- (E (receipt_key (p_src p) (p_dst p) (p_seq p))) by reflexivity.
+  destruct (negb (validate_packet A c p)); [exact I|].
+  destruct (lookup (receipt_key _ _ _) (c_kv c)); [exact I|].
+  destruct (lookup _ (c_clients A c)) as [cl|]; [|exact I].
+  destruct (negb (client_active cl (c_now A c))); [exact I|].
+  destruct (negb (verify cl _ h pf _ _)); [exact I|].
+  destruct (beq (p_relay p) (c_name A c)).
+  - destruct (negb (authenticate _ _ _ _)).
+    + cbn [rrel_off]. split; [reflexivity|]. rewrite ?with_kv_with. apply sim_off_with. apply kv_eq_off_set. exact E.
+    + destruct (negb (has (p_dst p) (c_clients A c))); [exact I|].
+      cbn [rrel_off]. split; [reflexivity|]. rewrite ?with_kv_with. apply sim_off_with.
+      apply kv_eq_off_set. apply kv_eq_off_set. exact E.
+  - cbn [rrel_off]. split; [reflexivity|]. rewrite ?with_kv_with. apply sim_off_with. apply kv_eq_off_set. exact E.
+Qed.
+
+Lemma write_ack_off p ack : orel_off (write_ack A H c p ack) (write_ack A H c' p ack).
+Proof.
+  unfold write_ack. prj.
+  unfold has at 1 3. rewrite <- (E (ack_key (p_src p) (p_dst p) (p_seq p))) by reflexivity.
+  destruct (is_nil ack); [exact I|].
+  destruct (lookup (ack_key _ _ _) (c_kv c)); [exact I|].
+  destruct (negb (has _ (c_clients A c))); [exact I|].
+  cbn [orel_off]. split; [reflexivity|]. rewrite ?with_kv_with. apply sim_off_with.
+  apply set_max_ack_off. apply kv_eq_off_set. exact E.
+Qed.
+
+Lemma ack_packet_off p ack pf h : orel_off (ack_packet A H c p ack pf h) (ack_packet A H c' p ack pf h).
+Proof.
+  unfold ack_packet. rewrite validate_packet_off. prj.
+  rewrite <- (E (commit_key (p_src p) (p_dst p) (p_seq p))) by reflexivity.
+  destruct (negb (validate_packet A c p)); [exact I|].
+  destruct (negb (beq _ (H (p_data p)))); [exact I|].
+  destruct (lookup _ (c_clients A c)) as [cl|]; [|exact I].
+  destruct (negb (client_active cl (c_now A c))); [exact I|].
+  destruct (negb (verify cl _ h pf _ _)); [exact I|].
+  destruct (beq (p_relay p) (c_name A c)).
+  - destruct (negb (has (p_src p) (c_clients A c))); [exact I|].
+    cbn [orel_off]. split; [reflexivity|]. rewrite ?with_kv_with. apply sim_off_with.
+    apply kv_eq_off_set. apply set_max_ack_off. apply kv_eq_off_remove. exact E.
+  - cbn [orel_off]. split; [reflexivity|]. rewrite ?with_kv_with. apply sim_off_with.
+    apply set_max_ack_off. apply kv_eq_off_remove. exact E.
+Qed.
+
+End OneOff.
+
+Lemma write_ack_sim_off c1 c2 p ack : sim_off c1 c2 -> orel_off (write_ack A H c1 p ack) (write_ack A H c2 p ack).
+Proof. intros [m [X ->]]. apply write_ack_off. exact X. Qed.
+
+Lemma exec_off c c2 o : no_clean_op o -> sim_off c c2 -> orel_off (exec c o) (exec c2 o).
+Proof.
+  intros NC [kv' [E ->]]. destruct o as [p|p pf h|p a pf h|cp|cp pf h|n cl|n h snap t|rs|dt|a];
+    cbn [Keeper.exec]; try (destruct NC; fail).
+  - apply send_packet_off. exact E.
+  - unfold msg_recv. destruct (N.eqb h 0); [exact I|].
+    pose proof (recv_packet_off c kv' E p pf h) as R.
+    destruct (recv_packet A H c p pf h) as [|c1 e1|c1 e1], (recv_packet A H (with_kv c kv') p pf h) as [|c2 e2|c2 e2];
+      cbn [rrel_off] in R; try contradiction; try exact I.
+    + destruct R as [-> S]. pose proof (write_ack_sim_off c1 c2 p unauth_ack S) as W.
+      destruct (write_ack A H c1 p unauth_ack) as [[c3 e3]|], (write_ack A H c2 p unauth_ack) as [[c4 e4]|];
+        cbn [orel_off] in W; try contradiction; try exact I.
+      destruct W as [-> S']. cbn [orel_off]. auto.
+    + destruct R as [-> S]. destruct (sim_off_fields _ _ S) as (Fn & Fa & _).
+      rewrite Fn, Fa. destruct (beq (p_dst p) (c_name A c1)).
+      * destruct (negb (has_route (p_port p))); [exact I|].
+        destruct (on_recv (c_app A c1) p) as [[a' oack]|]; [|exact I].
+        destruct oack as [ack|].
+        -- pose proof (write_ack_sim_off _ _ p ack (sim_off_app _ _ a' S)) as W.
+           destruct (write_ack A H (with_app A c1 a') p ack) as [[c3 e3]|],
+                    (write_ack A H (with_app A c2 a') p ack) as [[c4 e4]|];
+             cbn [orel_off] in W; try contradiction; try exact I.
+           destruct W as [-> S']. cbn [orel_off]. auto.
+        -- cbn [orel_off]. split; [reflexivity | apply sim_off_app; exact S].
+      * cbn [orel_off]. auto.
+  - unfold msg_ack. destruct (N.eqb h 0 || is_nil a); [exact I|].
+    destruct (negb (has_route (p_port p))); [exact I|].
+    pose proof (ack_packet_off c kv' E p a pf h) as R.
+    destruct (ack_packet A H c p a pf h) as [[c1 e1]|], (ack_packet A H (with_kv c kv') p a pf h) as [[c2 e2]|];
+      cbn [orel_off] in R; try contradiction; try exact I.
+    destruct R as [-> S]. destruct (sim_off_fields _ _ S) as (Fn & Fa & _). rewrite Fn, Fa.
+    destruct (beq (p_src p) (c_name A c1)).
+    + destruct (on_ack (c_app A c1) p a) as [a'|]; [|exact I].
+      cbn [orel_off]. split; [reflexivity | apply sim_off_app; exact S].
+    + cbn [orel_off]. auto.
+  - unfold create_client. destruct c; cbn. destruct (has n c_clients); cbn; [exact I|].
+    split; [reflexivity|]. exists kv'. split; [exact E | reflexivity].
+  - unfold update_client. destruct c; cbn. destruct (lookup n c_clients) as [cl0|]; cbn; [|exact I].
+    destruct (negb (client_active cl0 c_now)); cbn; [exact I|].
+    split; [reflexivity|]. exists kv'. split; [exact E | reflexivity].
+  - destruct (set_rules rs); [|exact I]. cbn [orel_off]. split; [reflexivity|].
+    exists kv'. split; [destruct c; exact E | destruct c; reflexivity].
+  - cbn [orel_off]. split; [reflexivity|]. exists kv'. split; [destruct c; exact E | destruct c; reflexivity].
+  - cbn [orel_off]. split; [reflexivity|]. exists kv'. split; [destruct c; exact E | destruct c; reflexivity].
+Qed.
+
+Theorem run_off ops : forall c c2, Forall no_clean_op ops -> sim_off c c2 ->
+  run_log c ops = run_log c2 ops /\ sim_off (run c ops) (run c2 ops).
+Proof.
+  induction ops as [|o ops IH]; intros c c2 NC S; [split; [reflexivity | exact S]|].
+  inversion NC as [|? ? NC1 NC2]; subst.
+  pose proof (exec_off c c2 o NC1 S) as R.
+  cbn [Keeper.run_log]. unfold Keeper.run. cbn [fold_left].
+  fold (run (fst (step c o)) ops). fold (run (fst (step c2 o)) ops). unfold Keeper.step.
+  destruct (exec c o) as [[c1 e1]|], (exec c2 o) as [[c3 e3]|]; cbn [orel_off] in R; try contradiction; cbn [fst snd].
+  - destruct R as [-> S']. destruct (IH _ _ NC2 S') as [L R']. rewrite L. auto.
+  - destruct (IH _ _ NC2 S) as [L R']. rewrite L. auto.
+Qed.
+
+(** a packet store without clean points (the highest acknowledged sequences may be there) *)
+Definition no_clean_points (kv : store) : Prop :=
+  NoDup (map fst kv) /\ forall k v, In (k, v) kv -> pkt_entry k v \/ exists a b, k = maxack_key a b.
+
+Lemma no_clean_points_wf kv : no_clean_points kv -> wf_store kv.
+Proof.
+  intros [ND Hk]. split; [exact ND|]. intros k v He. destruct (Hk k v He) as [P|[a [b ->]]].
+  - destruct P; [apply WE_seq | apply WE_send]; assumption.
+  - apply WE_maxack.
+Qed.
+
+Theorem continuation_equal_modulo_max_ack c ops :
+  no_clean_points (c_kv c) -> Forall no_clean_op ops ->
+  run_log c ops = run_log (reimport_chain A c) ops /\
+  (forall k, is_maxack k = false ->
+             lookup k (c_kv (run c ops)) = lookup k (c_kv (run (reimport_chain A c) ops))) /\
+  c_clients A (run c ops) = c_clients A (run (reimport_chain A c) ops) /\
+  c_rules A (run c ops) = c_rules A (run (reimport_chain A c) ops) /\
+  c_app A (run c ops) = c_app A (run (reimport_chain A c) ops).
+Proof.
+  intros X NC. assert (S : sim_off c (reimport_chain A c)).
+  { exists (pkt_reimport (c_kv c)). split; [|reflexivity]. intros k Hk.
+    rewrite pkt_roundtrip by (apply no_clean_points_wf; exact X).
+    destruct (pcovered k) eqn:Ec; [reflexivity|].
+    destruct (lookup k (c_kv c)) as [v|] eqn:El; [|reflexivity].
+    apply lookup_in in El. destruct X as [_ X]. destruct (X k v El) as [P|[a [b ->]]].
+    - apply pkt_entry_pcovered in P. congruence.
+    - discriminate Hk. }
+  destruct (run_off ops _ _ NC S) as [L R]. split; [exact L|].
+  destruct (sim_off_fields _ _ R) as (_ & Fa & Fc & Fr & _).
+  destruct R as [m [Em Ec]]. repeat split; try congruence.
+  intros k Hk. rewrite Ec. destruct (run c ops); cbn. apply Em. exact Hk.
+Qed.
+
+End ExtOff.
